@@ -136,5 +136,34 @@ __CPROVER_ensures(IMP(hmm->score[1] > HW, hmm->senid[1] != BAD_SSID) && IMP(hmm-
 __CPROVER_ensures(hmm->score[0] >= HW && hmm->score[0] <= 0 && hmm->score[1] >= HW && hmm->score[1] <= 0 && hmm->score[2] >= HW && hmm->score[2] <= 0)
 __CPROVER_ensures(hmm->out_score >= HW && hmm->out_score <= 0)
 ;
+
+/* never reached for 3-state HMMs: a call would violate these (unsatisfiable) preconditions */
+static int32 hmm_vit_eval_5st_lr(hmm_t *hmm) __CPROVER_requires(0) __CPROVER_assigns() __CPROVER_ensures(1);
+static int32 hmm_vit_eval_5st_lr_mpx(hmm_t *hmm) __CPROVER_requires(0) __CPROVER_assigns() __CPROVER_ensures(1);
+static int32 hmm_vit_eval_anytopo(hmm_t *hmm) __CPROVER_requires(0) __CPROVER_assigns() __CPROVER_ensures(1);
+/* the dispatcher, for the 3-state topologies of the shipped models: it reaches exactly one of the two steps proved above
+ * (never the 5-state or any-topology code) and hands their result through.  Callees replaced by their contracts. */
+int32 hmm_vit_eval(hmm_t *hmm)
+__CPROVER_requires(hmm->mpx ? (HMM3M_FRESH(hmm)) : (HMM3_FRESH(hmm)))
+__CPROVER_requires(hmm->n_emit_state == 3)
+__CPROVER_requires(hmm->score[0] >= HW && hmm->score[0] <= 0 && H_SCORE_OK(hmm->score[1]) && H_SCORE_OK(hmm->score[2]))
+__CPROVER_requires(IMP(!hmm->mpx, (hmm->score[2] == HW || hmm->score[1] != HW) && (hmm->score[1] != HW || hmm->out_score == HW)
+                                  && verif_hs[0] == hmm->score[0] - H3_SEN(0) && verif_hs[1] == hmm->score[1] - H3_SEN(1) && verif_hs[2] == hmm->score[2] - H3_SEN(2)))
+__CPROVER_requires(IMP(hmm->mpx, (hmm->senid[1] == BAD_SSID) == (hmm->score[1] == HW) && (hmm->senid[2] == BAD_SSID) == (hmm->score[2] == HW)
+                                 && verif_hact[1] == (hmm->senid[1] != BAD_SSID) && verif_hact[2] == (hmm->senid[2] != BAD_SSID)
+                                 && verif_hs[0] == hmm->score[0] - H3M_SEN(0)
+                                 && IMP(verif_hact[1], verif_hs[1] == hmm->score[1] - H3M_SEN(1)) && IMP(verif_hact[2], verif_hs[2] == hmm->score[2] - H3M_SEN(2))))
+__CPROVER_assigns(hmm->score[0], hmm->score[1], hmm->score[2], hmm->history[1], hmm->history[2], hmm->out_score, hmm->out_history,
+                  hmm->bestscore, hmm->senid[1], hmm->senid[2])
+__CPROVER_ensures(__CPROVER_return_value == hmm->bestscore)
+__CPROVER_ensures(hmm->bestscore == HMAX2(HMAX2(hmm->score[0], hmm->score[1]), HMAX2(hmm->score[2], hmm->out_score)))
+__CPROVER_ensures(hmm->score[0] >= HW && hmm->score[0] <= 0 && hmm->score[1] >= HW && hmm->score[1] <= 0 && hmm->score[2] >= HW && hmm->score[2] <= 0)
+__CPROVER_ensures(hmm->out_score >= HW && hmm->out_score <= 0)
+/* back-pointer slots are closed under an evaluation (carries HIST_SRC of the word-arc groups) */
+__CPROVER_ensures(hmm->history[0] == H3_H(0))
+__CPROVER_ensures(hmm->history[1] == H3_H(0) || hmm->history[1] == H3_H(1))
+__CPROVER_ensures(hmm->history[2] == H3_H(0) || hmm->history[2] == H3_H(1) || hmm->history[2] == H3_H(2))
+__CPROVER_ensures(hmm->out_history == H3_H(1) || hmm->out_history == H3_H(2) || hmm->out_history == __CPROVER_old(hmm->out_history))
+;
 #endif
 #endif
